@@ -8,7 +8,8 @@ SIGMA_C = ["a", "b", "_", "-", "0", "1", "+", " ", "'", '"', "\\", "/", "~", "#"
 LOOKALIKES = ["01", "00", "-0", "+1", "1_0", " 1", "1 ", "1e1", "1.0", "-", "and", "or", "not", "in", "contains",
               "true", "True", "false", "False", "nil", "Nil", "null", "Null", "none", "None", "undefined", "missing",
               "length", "count", "match", "search", "value", "~0", "~1", "a b", "$", "@", "a.b", "a'b\"c", "\\n",
-              "퟿", "", "￿", "日本", "-1", "10", "12", "~01", "~2", "#a", "#0", "~a", "%41", "a/b", "~"]
+              "퟿", "", "￿", "日本", "-1", "10", "12", "~01", "~2", "#a", "#0", "~a", "%41", "a/b", "~",
+              "\t", "\b", "\f", "\r", "a\tb", "\r\n", "\x00", "\x1f", "\u2028", "\ud7ff\ue000"]
 
 
 def strings_upto(n, sigma=SIGMA_C):
